@@ -165,16 +165,10 @@ def evaluate__map_remove(self: XPathFunction, context: ta.ContextType = None) ->
         context = self.context
 
     map_ = self.get_argument(context, required=True, cls=XPathMap)
-    keys = self[1].evaluate(context)
-    if keys is None:
-        return map_
-    elif isinstance(keys, list):
-        items = (
-            (k, v) for k, v in map_.items(context) if not any(same_key(k, x) for x in keys)
-        )
-    else:
-        items = ((k, v) for k, v in map_.items(context) if not same_key(k, keys))
-
+    keys = [x for x in self[1].atomization(context)]
+    items = (
+        (k, v) for k, v in map_.items(context) if not any(same_key(k, x) for x in keys)
+    )
     return XPathMap(self.parser, items=items)
 
 
@@ -399,12 +393,14 @@ def evaluate__array_remove(self: XPathFunction, context: ta.ContextType = None) 
         context = self.context
 
     array_: XPathArray = self.get_argument(context, required=True, cls=XPathArray)
-    positions_ = self[1].evaluate(context)
-    if positions_ is None:
-        return array_
-
     positions: list[int] = []
-    for p in positions_ if isinstance(positions_, list) else [positions_]:
+    for p in self[1].atomization(context):
+        if isinstance(p, UntypedAtomic):
+            try:
+                p = int(p.value)
+            except ValueError as err:
+                raise self.error('FORG0001', err) from None
+
         if isinstance(p, int) and 0 < p <= len(array_):
             positions.append(p)
         elif isinstance(context, XPathSchemaContext):
